@@ -164,9 +164,12 @@ func ippExtras(thorough bool) []ippExtra {
 	return ex
 }
 
+// charset and natural language of the requests being built (the reply must echo them)
+var ippCS, ippNL = "utf-8", "en-us"
+
 func ippBase(op int16, ver [2]byte, reqID int32, doc []byte, pre, mid, post []ippAttr, second []ippAttr, third []ippAttr) *ippReq {
 	g := ippGroup{tag: 1}
-	g.attrs = append(g.attrs, strAttr(0x47, "attributes-charset", "utf-8"), strAttr(0x48, "attributes-natural-language", "en-us"))
+	g.attrs = append(g.attrs, strAttr(0x47, "attributes-charset", ippCS), strAttr(0x48, "attributes-natural-language", ippNL))
 	g.attrs = append(g.attrs, pre...)
 	g.attrs = append(g.attrs, strAttr(0x45, "printer-uri", "ipp://10.0.0.1/printers/p1"))
 	g.attrs = append(g.attrs, mid...)
@@ -285,8 +288,8 @@ func c17IPP(c *core.Ctx) {
 			if p.major != r.major || p.minor != r.minor || p.reqID != r.reqID {
 				c.Violationf(sig+":reply-header", "%s: reply version %d.%d id %d, sent %d.%d id %d", name, p.major, p.minor, p.reqID, r.major, r.minor, r.reqID)
 			}
-			wantCS := fmt.Sprintf("g1:47:attributes-charset=%x", "utf-8")
-			wantNL := fmt.Sprintf("g1:48:attributes-natural-language=%x", "en-us")
+			wantCS := fmt.Sprintf("g1:47:attributes-charset=%x", ippCS)
+			wantNL := fmt.Sprintf("g1:48:attributes-natural-language=%x", ippNL)
 			hasCS, hasNL := false, false
 			for _, a := range p.attrs {
 				if a == wantCS {
@@ -331,6 +334,16 @@ func c17IPP(c *core.Ctx) {
 					run(fmt.Sprintf("plain/%s/v%d.%d/id%d/%s", op.name, v[0], v[1], id, dn), r, false)
 				}
 			}
+		}
+	}
+	// 1b. charset and natural-language values of boundary lengths (the reply echoes them)
+	for _, op := range ops {
+		for _, l := range [][2]int{{1, 5}, {63, 5}, {64, 5}, {255, 5}, {300, 5}, {5, 63}, {5, 64}, {5, 300}, {64, 64}} {
+			ippCS, ippNL = strings.Repeat("c", l[0]), strings.Repeat("n", l[1])
+			r := ippBase(op.id, vers[0], 7, docs["doc1"], nil, nil, nil, nil, nil)
+			r.desc = "charset-lengths"
+			run(fmt.Sprintf("charset/%s/cs%d/nl%d", op.name, l[0], l[1]), r, false)
+			ippCS, ippNL = "utf-8", "en-us"
 		}
 	}
 	// 2. one extra attribute of every supported tag at every position, every op
